@@ -57,7 +57,7 @@ def main():
                 "replay_cmd_template": "./nvcheck replay {path}",
                 "engine": engine,
                 "level_claimed": {"category": "exploration", "text": text, "design_ref": "DESIGN.md section " + ref},
-                "level_note": "Trusted: rustc/cargo 1.95, std (Unicode tables, float parsing/formatting), serde/serde_json/ron/rmp-serde/arbitrary/regex crates as pinned by /repo/Cargo.lock, the Python generator's exact bound arithmetic, the nvrt reference interpreter. Declarations are generated from the documented grammar (systematic core + VERIF_SEED random tail); nothing outside the explored declarations and inputs is claimed.",
+                "level_note": "Build configurations explored: dev profile with nutype default features (main workspace) plus, where DESIGN.md section 2.6 lists them, debug assertions off, --cfg fuzzing, nutype std feature off, eight crate-feature sets, dependency (non-primary) builds. Trusted: rustc/cargo 1.95, std (Unicode tables, float parsing/formatting), serde/serde_json/ron/rmp-serde/arbitrary/regex crates as pinned by /repo/Cargo.lock, the Python generator's exact bound arithmetic, the nvrt reference interpreter. Declarations are generated from the documented grammar (systematic core + VERIF_SEED random tail); nothing outside the explored declarations and inputs is claimed.",
                 "technique": tech,
             })
         else:
